@@ -36,7 +36,8 @@ BOUNDS = {
     "universe": "|U| = 7 record kinds: a pair with coinciding identifiers, a same-name/different-fields type, a holder with a record field, "
     "a holder with record[], a grouped record, a nested group",
     "pre-states": "all 2^7 subsets of U already emitted x which kind was emitted last x every next kind",
-    "histories": "K = 3 (quick) / 4 (thorough) steps, each (kind, writer in {0, 1}), two writers open at the same time",
+    "histories": "K = 3 (quick) / 4 (thorough) steps, each (kind, writer in {0, 1}), two writers open at the same time, over the main universe and over a second "
+    "universe of 9 kinds (grouped records with equal group name and flat layout but different member types, type names differing only in '/' vs '_', a write that fails while packing)",
     "collision query": "two lists of 2 (type, name) pairs, names <= 6 chars in the real field-name language, types in WHITELIST(+[])",
 }
 STUBS = ["none for the stream layer: the concrete part of every path runs the real writers/readers with real msgpack/json (outside CrossHair's tracer; only the choice of history is symbolic)"]
@@ -138,12 +139,32 @@ def colliding_pair():
 
 
 _U = None
+_U2 = None
 NKINDS = 8
+NAUX = 9
+FAILING = {("aux", 7)}
+# the type name a kind's record was CREATED with (look-alike names may end up sharing a generated class: the record itself is then no
+# reliable witness of its own type name)
+CREATED_AS = {("aux", 4): "t/p_q", ("aux", 5): "t_p/q", ("aux", 6): "t_p_q"}
 
 
-def universe():
+def written_obs(u, kind, rec, flat):
+    o = obs(rec, flat)
+    name = CREATED_AS.get((u, kind))
+    return o if name is None else (name,) + tuple(o[1:])  # kinds whose write() must raise and leave nothing of the record in the stream
+
+
+class Unpackable:
+    """a value no serialiser knows: writing a record that holds it fails while the record is being packed"""
+
+
+def universe(which="main"):
     """list of functions i -> record (fresh each call)"""
-    global _U
+    global _U, _U2
+    if which == "aux":
+        if _U2 is None:
+            _U2 = aux_universe()
+        return _U2
     if _U is not None:
         return _U
     from flow.record import GroupedRecord, RecordDescriptor
@@ -176,6 +197,33 @@ def universe():
     return _U
 
 
+def aux_universe():
+    """second universe: grouped records that share group name AND flattened field list but are composed of different member types;
+    type names that differ only in '/' versus '_' (they map to the same Python class name) with identical fields; a record whose
+    write fails while it is being packed (its type not announced before), followed by good records of that type"""
+    from flow.record import GroupedRecord, RecordDescriptor
+
+    M = RecordDescriptor("a/host", [("string", "host")])
+    V1 = RecordDescriptor("a/geo_v1", [("varint", "lat")])
+    V2 = RecordDescriptor("a/geo_v2", [("varint", "lat")])
+    MV = RecordDescriptor("a/hostgeo", [("string", "host"), ("varint", "lat")])
+    P1 = RecordDescriptor("t/p_q", [("string", "v")])
+    P2 = RecordDescriptor("t_p/q", [("string", "v")])
+    P3 = RecordDescriptor("t_p_q", [("string", "v")])
+    F = RecordDescriptor("a/fragile", [("dictlist", "d"), ("string", "tag")])
+    return [
+        lambda: GroupedRecord("g/same", [M("h0"), V1(10)]),
+        lambda: GroupedRecord("g/same", [M("h1"), V2(11)]),
+        lambda: GroupedRecord("g/same", [MV("h2", 12)]),
+        lambda: V2(13),
+        lambda: P1("p1"),
+        lambda: P2("p2"),
+        lambda: P3("p3"),
+        lambda: F([{"k": Unpackable()}], "bad"),
+        lambda: F([{"k": 1}], "good"),
+    ]
+
+
 def obs(r, flat=False):
     """flat=True: a grouped record is observed through its flat descriptor (what the JSON format stores, by design)"""
     from flow.record import GroupedRecord, Record
@@ -199,14 +247,14 @@ class _NoCloseText(io.StringIO):
         pass
 
 
-def run_history(fmt, steps, nwriters=2):
+def run_history(fmt, steps, nwriters=2, u="main"):
     """Concrete: write the history (kind index, writer index) through real writers, read every stream back with the real
     reader; returns None if every stream yields its own records with exactly their descriptors, else a description."""
     from flow.record.adapter.jsonfile import JsonfileReader, JsonfileWriter
     from flow.record.jsonpacker import JsonRecordPacker
     from flow.record.stream import RecordStreamReader, RecordStreamWriter
 
-    U = universe()
+    U = universe(u)
     if fmt == "stream":
         bufs = [_NoCloseBytes() for _ in range(nwriters)]
         ws = [RecordStreamWriter(b) for b in bufs]
@@ -216,8 +264,15 @@ def run_history(fmt, steps, nwriters=2):
     written = [[] for _ in range(nwriters)]
     for kind, w in steps:
         rec = U[kind]()
+        if (u, kind) in FAILING:
+            # the application catches the error and goes on writing: nothing of this record may be in the stream
+            try:
+                ws[w].write(rec)
+            except Exception:  # noqa: BLE001
+                continue
+            return f"writer {w}: writing a record with an unserialisable value did not raise"
         ws[w].write(rec)
-        written[w].append(obs(rec, fmt == "json"))
+        written[w].append(written_obs(u, kind, rec, fmt == "json"))
     for i in range(nwriters):
         ws[i].flush()
         try:
@@ -242,19 +297,19 @@ def run_history(fmt, steps, nwriters=2):
     return None
 
 
-def prestate(fmt: str, nxt: int):
+def prestate(fmt: str, nxt: int, u: str = "main"):
     from crosshair.tracers import NoTracing
 
-    n = NKINDS
+    n = NKINDS if u == "main" else NAUX
 
-    def check(b0: bool, b1: bool, b2: bool, b3: bool, b4: bool, b5: bool, b6: bool, b7: bool, last: int) -> bool:
+    def check(b0: bool, b1: bool, b2: bool, b3: bool, b4: bool, b5: bool, b6: bool, b7: bool, b8: bool, last: int) -> bool:
         """
         post: _
         """
-        if not (-1 <= last < n):
+        if not (-1 <= last < n) or (b8 and n < 9):
             return True
         steps = []
-        for i, b in enumerate((b0, b1, b2, b3, b4, b5, b6, b7)):
+        for i, b in enumerate((b0, b1, b2, b3, b4, b5, b6, b7, b8)):
             if b:
                 steps.append((i, 0))
         for j in range(n):
@@ -262,29 +317,31 @@ def prestate(fmt: str, nxt: int):
                 steps.append((j, 0))
         steps.append((nxt, 0))
         with NoTracing():
-            return run_history(fmt, steps, 1) is None
+            return run_history(fmt, steps, 1, u) is None
 
     return check
 
 
-def history(fmt: str, k: int, first: int):
+def history(fmt: str, k: int, first: int, u: str = "main"):
     """first = code of the first step (kind * 2 + writer); the remaining k-1 steps are symbolic"""
     from crosshair.tracers import NoTracing
+
+    n = NKINDS if u == "main" else NAUX
 
     def check(c1: int, c2: int, c3: int) -> bool:
         """
         post: _
         """
         codes = [c1, c2, c3][: k - 1]
-        if not all(0 <= c < 2 * NKINDS for c in codes):
+        if not all(0 <= c < 2 * n for c in codes):
             return True
         steps = [(first // 2, first % 2)]
         for c in codes:
-            for j in range(2 * NKINDS):
+            for j in range(2 * n):
                 if c == j:
                     steps.append((j // 2, j % 2))
         with NoTracing():
-            return run_history(fmt, steps, 2) is None
+            return run_history(fmt, steps, 2, u) is None
 
     return check
 
@@ -298,22 +355,34 @@ def obligations(tier, seed):
         k = 3 if tier == "quick" else 4
         for first in range(2 * NKINDS):
             obs_.append(ob(f"O3-history/{fmt}/K{k}/first{first}", "xh", "history", {"fmt": fmt, "k": k, "first": first}, timeout=to, group=f"O3-history/{fmt}", bounds=f"{k} steps x {NKINDS} kinds x 2 writers"))
+        # second universe (grouped records of equal flat layout, look-alike type names, a failing write)
+        for first in range(2 * NAUX):
+            obs_.append(ob(f"O3-history-aux/{fmt}/K{k}/first{first}", "xh", "history", {"fmt": fmt, "k": k, "first": first, "u": "aux"}, timeout=to, group=f"O3-history-aux/{fmt}", bounds=f"{k} steps x {NAUX} kinds x 2 writers"))
+        if tier == "thorough":
+            for nxt in range(NAUX):
+                obs_.append(ob(f"O2-prestate-aux/{fmt}/next{nxt}", "xh", "prestate", {"fmt": fmt, "nxt": nxt, "u": "aux"}, timeout=to, group=f"O2-prestate-aux/{fmt}", bounds="2^9 subsets x last-emitted kind"))
     return obs_
 
 
 # ------------------------------------------------------------------------------------------------ replay (path based)
-def real_history(fmt, steps):
+def real_history(fmt, steps, u="main"):
     from flow.record import RecordReader, RecordWriter
 
-    U = universe()
+    U = universe(u)
     with tempdir() as d:
         paths = [os.path.join(d, f"w{i}." + ("records" if fmt == "stream" else "json")) for i in (0, 1)]
         ws = [RecordWriter(p) for p in paths]
         written = [[], []]
         for kind, w in steps:
             rec = U[kind]()
+            if (u, kind) in FAILING:
+                try:
+                    ws[w].write(rec)
+                except Exception:  # noqa: BLE001
+                    continue
+                return f"writer {w}: writing a record with an unserialisable value did not raise"
             ws[w].write(rec)
-            written[w].append(obs(rec, fmt == "json"))
+            written[w].append(written_obs(u, kind, rec, fmt == "json"))
         for w in ws:
             w.flush()
             w.close()
@@ -336,23 +405,27 @@ def replay(res):
     gid = res["id"]
     if "collision" in gid:
         return {"reproduced": False, "what": "collision witnesses are inputs, not violations: " + res["detail"][:200]}
+    u = a.get("u", "main")
+    n = NKINDS if u == "main" else NAUX
     if "prestate" in gid:
-        names = ["b0", "b1", "b2", "b3", "b4", "b5", "b6", "b7", "last"]
+        names = ["b0", "b1", "b2", "b3", "b4", "b5", "b6", "b7", "b8", "last"]
         v = cex_args(res, names)
-        steps = [(i, 0) for i in range(NKINDS) if v.get(f"b{i}")]
-        if isinstance(v.get("last"), int) and 0 <= v["last"] < NKINDS:
+        steps = [(i, 0) for i in range(n) if v.get(f"b{i}")]
+        if isinstance(v.get("last"), int) and 0 <= v["last"] < n:
             steps.append((v["last"], 0))
         steps.append((a["nxt"], 0))
     else:
         v = cex_args(res, ["c1", "c2", "c3"])
         steps = [(a["first"] // 2, a["first"] % 2)]
         for c in [v.get("c1"), v.get("c2"), v.get("c3")][: a["k"] - 1]:
-            if isinstance(c, int) and 0 <= c < 14:
+            if isinstance(c, int) and 0 <= c < 2 * n:
                 steps.append((c // 2, c % 2))
-    problem = real_history(a["fmt"], steps)
+    problem = real_history(a["fmt"], steps, u)
     if problem is None:
         return {"reproduced": False, "what": f"history {steps} reads back exactly through the path-based writers/readers"}
     names_ = ["collidingA", "collidingB", "same-name", "holder(record)", "holder(record[])", "grouped", "nested-group", "same-name-holder"]
+    if u == "aux":
+        names_ = ["group[host,geo_v1]", "group[host,geo_v2]", "group[hostgeo]", "geo_v2", "t/p_q", "t_p/q", "t_p_q", "failing-write", "fragile-good"]
     hist = [(names_[k], w) for k, w in steps]
-    key = "C03/identifier-collision" if any(k in (0, 1) for k, _ in steps) and "identifier" in problem else f"C03/{a['fmt']}/{steps}"
+    key = "C03/identifier-collision" if u == "main" and any(k in (0, 1) for k, _ in steps) and "identifier" in problem else f"C03/{a['fmt']}/{u}/{steps}"
     return {"reproduced": True, "key": key, "what": f"{a['fmt']}: history {hist}: {problem}"[:700], "input": {"fmt": a["fmt"], "steps": steps}}
